@@ -284,7 +284,8 @@ type TapeRec struct {
 	HB       int64             `json:"hb"`   // header blocks (PAX header + data + ustar header)
 	DB       int64             `json:"db"`   // data blocks (padded)
 	Size     int64             `json:"size"` // member size in bytes as stored on tape
-	Name     string            `json:"name"` // after unwrapping (decrypt+verify), raw tar name otherwise
+	Name     string            `json:"name"` // after unwrapping (decrypt+verify) and without the pipeline suffix
+	TapeName string            `json:"tapename"`
 	Linkname string            `json:"linkname,omitempty"`
 	Typeflag byte              `json:"typeflag"`
 	Action   string            `json:"action"`
@@ -450,6 +451,10 @@ func fillRec(rec *TapeRec, outer *tar.Header, cfg Config, rc config.CryptoConfig
 		}()
 	}
 	rec.Name = hp.Name
+	rec.TapeName = hp.Name
+	if hp.Typeflag == tar.TypeReg || hp.Typeflag == 0 {
+		rec.Name = StripSuffix(hp.Name, cfg)
+	}
 	rec.Linkname = hp.Linkname
 	rec.Typeflag = hp.Typeflag
 	rec.Mode = hp.Mode
@@ -530,4 +535,18 @@ func short(s string) string {
 		return s[:10]
 	}
 	return s
+}
+
+// StripSuffix removes the pipeline suffix the writer adds to regular files' names
+// (own table, independent of internal/suffix).
+func StripSuffix(name string, cfg Config) string {
+	enc := map[string]string{"age": ".age", "pgp": ".pgp"}
+	comp := map[string]string{"gzip": ".gz", "parallelgzip": ".gz", "lz4": ".lz4", "zstandard": ".zst", "brotli": ".br", "bzip2": ".bz2", "parallelbzip2": ".bz2"}
+	if s, ok := enc[cfg.Encryption]; ok {
+		name = strings.TrimSuffix(name, s)
+	}
+	if s, ok := comp[cfg.Compression]; ok {
+		name = strings.TrimSuffix(name, s)
+	}
+	return name
 }
